@@ -139,8 +139,12 @@ def run_both(lines, jobs=14, per_chunk_timeout=60):
         model = [r for f in fm for r in f.result()]
     # a case the implementation did not finish although the model did: run it again, alone and patiently
     # (on a busy machine the watchdog fires on healthy cases); only a repeated failure counts
+    # likewise a solve()/solve_all() that reports the REAL one-second timeout although the model (which has no
+    # clock) does not: on a loaded machine a fast query can be descheduled for more than a second
+    TIMEOUT_TEXT = "s81.117.101.114.121.32.116.105.109.101.100.32.111.117.116"      # "Query timed out"
     redo = [k for k, ((o, r), (mo, mr, sp)) in enumerate(zip(impl, model))
-            if r in ("diverged", "skipped") and not (mr == "fuel" or mr.endswith(" fuel)"))]
+            if (r in ("diverged", "skipped") and not (mr == "fuel" or mr.endswith(" fuel)")))
+            or (TIMEOUT_TEXT in r and TIMEOUT_TEXT not in mr)]
     # in parallel batches; once a few cases have failed again the tree is shown broken and the remaining
     # suspects are left uncompared ("skipped") rather than re-run one by one for hours
     confirmed = 0
